@@ -2043,6 +2043,11 @@ func (d *Document) parseDocument() error {
 	}
 
 done:
+	// 主文档部件为空、根元素不是 w:document 或使用了其他命名空间时，上面的循环不会创建 Body；
+	// 返回错误而不是留下 Body 为 nil 的文档（后续任何访问都会 panic）
+	if d.Body == nil {
+		return WrapError("parse_document", ErrInvalidDocument)
+	}
 	Infof("解析完成，共 %d 个元素", len(d.Body.Elements))
 	return nil
 }
